@@ -1,4 +1,4 @@
-from checks.mux_common import mc, drive, validate, gated_replay, __doc__  # noqa
+from checks.mux_common import mc, drive, validate, gated_replay, stray_frames, __doc__  # noqa
 import vlib
 
 
@@ -9,6 +9,7 @@ def run(ctx):
     runs = drive(ctx, "c06", {"sync": args, "async": args, "ws": args}, shards=1 if q else 4)
     plans = validate(ctx, "c06", runs)
     gated_replay(ctx, q, "MC_ClientMuxGen_fault.cfg")
+    stray_frames(ctx, "C06")
     ctx.coverage["distinct_nontrivial"] = plans
     ctx.coverage["rule"] = "scripted scenarios: fault kind x calls in flight x requests read x responses sent before the fault; timeouts (late answers for 0..3 callers, answers racing the timeout); cancellation of 1..3 callers"
     ctx.coverage["exhaustive"] = True
